@@ -72,7 +72,7 @@ def light_run(cfg):
         v = of(x)
         calls.append((np.array(x, copy=True), fnum(v)))
         return v
-    task = L['Opytimizer'](space=sp, optimizer=opt, function=L['Function'](pointer=logged))
+    task = runlevel.make_task(L, cfg, sp, opt, L['Function'](pointer=logged))
     import opytimizer.utils.history as hm
     orig = hm.History.dump
 
